@@ -132,6 +132,11 @@ func init() {
 		"verifTime": func(fr *frame, args []value) value {
 			return timeVal{fr.m.input(args[0].(string), 64)}
 		},
+		"verifTimeWindow": func(fr *frame, args []value) value {
+			fr.m.timeWinLo = uint64(fr.m.asInt(args[0], "time window"))
+			fr.m.timeWinHi = uint64(fr.m.asInt(args[1], "time window"))
+			return nil
+		},
 		"verifTimeOf":         func(fr *frame, args []value) value { return timeVal{args[0].(*Term)} },
 		"verifTimeNs":         func(fr *frame, args []value) value { return args[0].(timeVal).ns },
 		"verifShowsDecimals4": inShowsDecimals4,
